@@ -5,6 +5,11 @@ expression translation (Python `ast` -> Gallina) of
 
     accessible_links, discover_links, find_dependents                                   (module functions)
     LinkManager._component_removed, ._data_removed, .remove_link, .update_externally_derivable_components   (methods)
+    LinkManager.add_link (one entry that is neither a list nor a JoinLink)                                   (method)
+    LinkManager._links, ._inverse_links, .links (properties: pure functions lm_links, lm_inverse_links, lm_links_list of
+    self.data_collection : option (list D) and self._external_links : list E) and the expression
+    `self._links | self._inverse_links` of update_externally_derivable_components (lm_links_in_force; inside lm_update_loop
+    the same expression stays the Section variable links_in_force)
 
 Fail-closed: every statement / expression form that is accepted is listed here; anything else aborts with the line number
 (exit status 3, the check then reports "translation broken").  Nothing in this file recognises "the current source": the
@@ -49,6 +54,24 @@ Accepted expressions
     a <= b (sets: set_le; ints)  < > >= == !=  `x in s`  `x not in s`  `x is y`  `x is not y`  and  or  not
     d[k]  d.items()  x.<method>() and x.<attr> for the methods / attributes of the tables below, f(args) for translated f
     DerivedComponent(data, link) -> the pair (data, link)
+Additional forms (properties and add_link)
+    sets of links: duplicate-free lists w.r.t. leqb; iterating one / list(<set of links>) goes through `set_iter_L`;
+                   a | b -> set_union leqb a b (prelude);  set(<list or set of links>)
+    set(e for x in A [if c] for y in B [if c] ..)  nested flat_map / filter / map (genexp_list), parts that can raise abort;
+                   element of option type only as `f for x in it .. if f is not None` -> flat_map over
+                   `match f with Some v_ => [v_] | None => [] end`
+    x is None / x is not None on an option value    match x with Some _ => .. | None => .. end
+    `if self.data_collection is [not] None:` (properties)   match on the option; self.data_collection is the list of datasets
+                   in the not-None branch (flow typing)
+    getattr(data, 'links', [])                      data_links_attr data (table GETATTR_EMPTY, default must be the literal [])
+    link.inverse  (link a ComponentLink)            inverse link : option L
+    isinstance(x, LinkCollection), x an entry       is_collection x; as the whole test of an `if` statement the entry is typed
+                   as a collection in the first branch (`for s in x` iterates coll_links x) and as a plain link in the second
+                   (x put into a set / list of links is entry_link x)
+    entry.inverse (add_link)                        entry_inverse entry : result (option E), evaluated where Python evaluates it;
+                   `v not in self._external_links` for such a v: None is not a member
+    for x in it: body   inside a property           fold_left (no else / break / continue / return / raising expression,
+                   otherwise abort); the other functions keep for_else
 """
 import ast
 import os
@@ -57,7 +80,7 @@ import sys
 REPO = os.environ.get('GLUE_REPO', '/repo')
 SRC = os.path.join(REPO, 'glue/core/link_manager.py')
 HERE = os.path.dirname(os.path.abspath(__file__))
-OUT = os.path.join(os.path.dirname(os.path.dirname(HERE)), 'coq/gen/Gen_links.v')
+OUT = os.environ.get('GEN_LINKS_OUT') or os.path.join(os.path.dirname(os.path.dirname(HERE)), 'coq/gen/Gen_links.v')
 
 
 class Unsupported(Exception):
@@ -79,10 +102,11 @@ COQ_TY = {
     'setC': 'list C', 'listC': 'list C', 'setK': 'list K', 'listL': 'list L', 'listZ': 'list Z', 'listE': 'list E', 'listD': 'list D',
     'dictZ': 'list (C * Z)', 'dictL': 'list (C * L)', 'dictDL': 'list (C * (D * L))', 'DL': '(D * L)',
     'itemsL': 'list (C * L)', 'unit': 'unit',
+    'setL': 'list L', 'EC': 'E', 'EL': 'E', 'optL': 'option L', 'optE': 'option E', 'optlistD': 'option (list D)',
 }
-ELEM = {'setC': 'C', 'listC': 'C', 'setK': 'K', 'listL': 'L', 'listZ': 'Z', 'listE': 'E', 'listD': 'D'}
+ELEM = {'setC': 'C', 'listC': 'C', 'setK': 'K', 'listL': 'L', 'listZ': 'Z', 'listE': 'E', 'listD': 'D', 'setL': 'L'}
 EQB = {'C': 'ceqb', 'L': 'leqb', 'K': 'keqb', 'E': 'eeqb', 'D': 'deqb', 'Z': 'Z.eqb'}
-SET_OF = {'C': 'setC', 'K': 'setK'}
+SET_OF = {'C': 'setC', 'K': 'setK', 'L': 'setL'}
 LIST_OF = {'C': 'listC', 'L': 'listL', 'Z': 'listZ', 'E': 'listE', 'D': 'listD'}
 DICT_OF = {'Z': 'dictZ', 'L': 'dictL', 'DL': 'dictDL'}
 
@@ -102,7 +126,22 @@ ATTRS = {
     ('C', 'parent'): ('parent', 'D'),
     ('M', 'component_id'): ('msg_component_id', 'C'),
     ('M', 'data'): ('msg_data', 'D'),
+    ('L', 'inverse'): ('inverse', 'optL'),
 }
+# `getattr(x, '<attr>', [])`: (receiver type, attribute) -> (Section variable, result type); the variable is the attribute
+# when the object has it and [] otherwise (the default must be the literal [])
+GETATTR_EMPTY = {
+    ('D', 'links'): ('data_links_attr', 'listL'),
+}
+# attributes whose evaluation can raise: the Section variable returns a `result` (entry.inverse on a LinkCollection raises
+# AttributeError; the error code is whatever the variable returns - Common.PyInt has no AttributeError constant and none is
+# needed)
+FALLIBLE_ATTRS = {
+    ('E', 'inverse'): ('entry_inverse', 'optE'), ('EC', 'inverse'): ('entry_inverse', 'optE'),
+    ('EL', 'inverse'): ('entry_inverse', 'optE'),
+}
+# isinstance tests that are translated (class name -> receiver types, Section variable)
+ISINSTANCE_VARS = {'LinkCollection': (('E', 'EC', 'EL'), 'is_collection')}
 # expressions on `self` that are not translated but named: source text -> (Section variable, type)
 SELF_EXPRS = {
     'self._links | self._inverse_links': ('links_in_force', 'listL'),
@@ -118,6 +157,8 @@ SECTION_VARS = [
     ('msg_component_id', 'M -> C'), ('msg_data', 'M -> D'),
     ('links_in_force', 'list L'),
     ('set_iter', 'list C -> list C'), ('set_iter_K', 'list K -> list K'),
+    ('data_links_attr', 'D -> list L'), ('is_collection', 'E -> bool'), ('coll_links', 'E -> list L'), ('entry_link', 'E -> L'),
+    ('inverse', 'L -> option L'), ('entry_inverse', 'E -> result (option E)'), ('set_iter_L', 'list L -> list L'),
 ]
 CMP_Z = {ast.Lt: '<?', ast.LtE: '<=?', ast.Gt: '>?', ast.GtE: '>=?', ast.Eq: '=?'}
 
@@ -200,7 +241,9 @@ class Tr:
 
     def __init__(self, fn, method=False):
         self.fn = fn
-        self.method = method
+        self.method = method is True      # state-passing method (self._external_links, trace)
+        self.prop = method == 'prop'      # property: a pure function of (self.data_collection, self._external_links)
+        self.isinstance_vars = {}         # translated isinstance tests (subset of ISINSTANCE_VARS)
         self.ret = None            # inferred return type
         self.holes = []
         self.tmp = 0
@@ -265,9 +308,22 @@ class Tr:
                 return [], 'self_external_links', env['self_external_links']
             if txt in SELF_EXPRS:
                 return [], SELF_EXPRS[txt][0], SELF_EXPRS[txt][1]
+        if self.prop and isinstance(e, ast.Attribute) and isinstance(e.value, ast.Name) and e.value.id == 'self':
+            if e.attr == '_external_links':
+                return [], 'self_external_links', env['self_external_links']
+            if e.attr == 'data_collection':
+                return [], env['@dc'][0], env['@dc'][1]
+            if 'prop.' + e.attr in FUNCS:
+                info = FUNCS['prop.' + e.attr]
+                return [], '(%s self_data_collection self_external_links)' % info.coq_name, info.ret
+            fail(e, 'attribute of self that is not a translated property')
         if isinstance(e, ast.Attribute):
             p, t, ty = self.expr(e.value, env)
             key = (ty_of(ty), e.attr)
+            if key in FALLIBLE_ATTRS:
+                var, rty = FALLIBLE_ATTRS[key]
+                v = self.fresh('v')
+                return p + [(v, '(%s %s)' % (var, t))], v, rty
             if key not in ATTRS:
                 fail(e, 'attribute %s of a value of type %s' % (e.attr, ty_of(ty)))
             var, rty = ATTRS[key]
@@ -294,6 +350,16 @@ class Tr:
                 return p1 + p2, '(%s - %s)' % (a, b), 'Z'
             if isinstance(e.op, ast.Mult) and ta == 'Z' and tb == 'Z':
                 return p1 + p2, '(%s * %s)' % (a, b), 'Z'
+            if isinstance(e.op, ast.BitOr):
+                # set union; a still-empty set() takes the element type of the other operand
+                if isinstance(ta, Hole) and ta.kind == 'set' and tb == 'setL':
+                    ta.resolve('L', e)
+                    ta = ty_of(ta)
+                if isinstance(tb, Hole) and tb.kind == 'set' and ta == 'setL':
+                    tb.resolve('L', e)
+                    tb = ty_of(tb)
+                if ta == 'setL' and tb == 'setL':
+                    return p1 + p2, '(set_union leqb %s %s)' % (a, b), 'setL'
             fail(e, 'binary operator on (%s, %s)' % (ta, tb))
         if isinstance(e, ast.UnaryOp) and isinstance(e.op, ast.Not):
             p, t, ty = self.expr(e.operand, env)
@@ -314,11 +380,26 @@ class Tr:
         if isinstance(e, ast.Compare):
             if len(e.ops) != 1:
                 fail(e, 'chained comparison')
+            if isinstance(e.ops[0], (ast.Is, ast.IsNot)) and isinstance(e.comparators[0], ast.Constant) \
+                    and e.comparators[0].value is None:
+                p1, a, ta = self.expr(e.left, env)
+                ta = ty_of(ta)
+                if not (isinstance(ta, str) and ta.startswith('opt')):
+                    fail(e, 'comparison with None of a value of type %s' % (ta,))
+                if isinstance(e.ops[0], ast.Is):
+                    return p1, '(match %s with Some _ => false | None => true end)' % a, 'bool'
+                return p1, '(match %s with Some _ => true | None => false end)' % a, 'bool'
             p1, a, ta = self.expr(e.left, env)
             p2, b, tb = self.expr(e.comparators[0], env)
             ta, tb = ty_of(ta), ty_of(tb)
             op = e.ops[0]
             pre = p1 + p2
+            if isinstance(op, (ast.In, ast.NotIn)) and ta == 'optE' and tb == 'listE':
+                # membership of a value that may be None: None is not an entry of the list
+                t = '(match %s with Some i_ => set_mem eeqb i_ %s | None => false end)' % (a, b)
+                return pre, t if isinstance(op, ast.In) else '(negb %s)' % t, 'bool'
+            if isinstance(op, (ast.In, ast.NotIn)) and ta in ('EC', 'EL') and tb == 'listE':
+                ta = 'E'
             if isinstance(op, (ast.In, ast.NotIn)):
                 if isinstance(tb, Hole) and tb.kind in ('set', 'list') and isinstance(ta, str):
                     tb.resolve(ta, e)        # a membership test fixes the element type of a still-empty container
@@ -367,6 +448,10 @@ class Tr:
             return p, '(set_iter %s)' % t, 'C'
         if ty == 'setK':
             return p, '(set_iter_K %s)' % t, 'K'
+        if ty == 'setL':
+            return p, '(set_iter_L %s)' % t, 'L'
+        if ty == 'EC':
+            return p, '(coll_links %s)' % t, 'L'       # iterating an entry known to be a LinkCollection
         if ty in ELEM:
             return p, t, ELEM[ty]
         fail(it, 'iteration over a value of type %s' % (ty,))
@@ -406,6 +491,63 @@ class Tr:
         r = self.fresh('r')
         return pre + [(r, '(map_result (fun %s => %s) %s)' % (x, body, it))], r, LIST_OF[ty]
 
+    def genexp_list(self, e, env):
+        """generator expression with one or more `for` clauses whose parts cannot raise -> (term : list X, X).
+        `for a in A for b in B(a)` is flat_map over A of the list for b.  An element expression of option type is accepted
+        only in the form `f for x in it if .. if f is not None` (the last filter is `<the same expression> is not None`);
+        it becomes flat_map (fun x => match f with Some v_ => [v_] | None => [] end), the elements for which f is not None,
+        mapped to the value f has."""
+        gens = e.generators
+
+        def build(i, env):
+            g = gens[i]
+            if g.is_async or not isinstance(g.target, ast.Name):
+                fail(e, 'comprehension target')
+            pre, it, ety = self.iter_of(g.iter, env)
+            if pre:
+                fail(g.iter, 'iterable of a generator expression that can raise')
+            if not isinstance(ety, str):
+                fail(e, 'comprehension over items()')
+            x = g.target.id
+            if x in env:
+                fail(e, 'comprehension target shadows a live name')
+            self.check_rebind(x, ety, env, e)
+            env2 = dict(env)
+            env2[x] = ety
+            last = i == len(gens) - 1
+            ifs = list(g.ifs)
+            guard = False
+            if last:
+                p, t, ty = self.expr(e.elt, env2)
+                ty = ty_of(ty)
+                if p or not isinstance(ty, str):
+                    fail(e.elt, 'element of a generator expression that can raise / has no type')
+                if ty.startswith('opt'):
+                    c = ifs[-1] if ifs else None
+                    if not (isinstance(c, ast.Compare) and len(c.ops) == 1 and isinstance(c.ops[0], ast.IsNot)
+                            and isinstance(c.comparators[0], ast.Constant) and c.comparators[0].value is None
+                            and ast.dump(c.left) == ast.dump(e.elt)):
+                        fail(e, 'element that may be None without a final filter `<element> is not None`')
+                    ifs = ifs[:-1]
+                    guard = True
+            for c in ifs:
+                cp, ct, cty = self.expr(c, env2)
+                if cp:
+                    fail(c, 'comprehension filter that can raise')
+                if ty_of(cty) != 'bool':
+                    fail(c, 'comprehension filter is not a boolean')
+                it = '(filter (fun %s => %s) %s)' % (x, ct, it)
+            if not last:
+                inner, ity = build(i + 1, env2)
+                return '(flat_map (fun %s => %s) %s)' % (x, inner, it), ity
+            if guard:
+                return '(flat_map (fun %s => match %s with Some v_ => [v_] | None => [] end) %s)' % (x, t, it), \
+                    {'optL': 'L', 'optE': 'E'}[ty]
+            if isinstance(e.elt, ast.Name) and e.elt.id == x:
+                return it, ty
+            return '(map (fun %s => %s) %s)' % (x, t, it), ty
+        return build(0, env)
+
     def call(self, e, env):
         f = e.func
         if e.keywords and not (isinstance(f, ast.Attribute) and isinstance(f.value, ast.Name) and f.value.id == 'self'):
@@ -417,19 +559,39 @@ class Tr:
                     h = Hole('set', e)
                     self.holes.append(h)
                     return [], '[]', h
+                if isinstance(e.args[0], ast.GeneratorExp):
+                    t, ety = self.genexp_list(e.args[0], env)
+                    if ety not in SET_OF:
+                        fail(e, 'set of %s' % (ety,))
+                    return [], '(set_of_list %s %s)' % (EQB[ety], t), SET_OF[ety]
                 p, t, ty = self.expr(e.args[0], env)
                 ty = ty_of(ty)
                 if ty in ('listC', 'setC'):
                     return p, '(set_of_list ceqb %s)' % t, 'setC'
+                if ty in ('listL', 'setL'):
+                    return p, '(set_of_list leqb %s)' % t, 'setL'
                 fail(e, 'set() of %s' % (ty,))
             if n == 'list' and len(e.args) == 1:
                 p, t, ty = self.expr(e.args[0], env)
                 ty = ty_of(ty)
                 if ty == 'setC':
                     return p, '(set_iter %s)' % t, 'listC'
+                if ty == 'setL':
+                    return p, '(set_iter_L %s)' % t, 'listL'
                 if isinstance(ty, str) and ty.startswith('list'):
                     return p, t, ty
                 fail(e, 'list() of %s' % (ty,))
+            if n == 'getattr' and len(e.args) == 3:
+                p, t, ty = self.expr(e.args[0], env)
+                a1, a2 = e.args[1], e.args[2]
+                if not (isinstance(a1, ast.Constant) and isinstance(a1.value, str)):
+                    fail(e, 'getattr with a computed name')
+                if not (isinstance(a2, ast.List) and not a2.elts):
+                    fail(e, 'getattr default other than []')
+                key = (ty_of(ty), a1.value)
+                if key not in GETATTR_EMPTY:
+                    fail(e, 'getattr %s of a value of type %s' % (a1.value, ty_of(ty)))
+                return p, '(%s %s)' % (GETATTR_EMPTY[key][0], t), GETATTR_EMPTY[key][1]
             if n == 'len' and len(e.args) == 1:
                 p, t, ty = self.expr(e.args[0], env)
                 if ty_of(ty) not in ELEM:
@@ -497,9 +659,20 @@ class Tr:
 
     # ---------------------------------------------------------------- binding fallible sub-expressions
     def binds(self, pre, body, ctx):
+        if pre and (self.prop or ctx.kind == 'fold'):
+            fail(self.fn, 'expression that can raise inside a property (%s)' % pre[0][1])
         for v, ft in reversed(pre):
             body = 'match %s with\n| Err e_ => %s\n| Ok %s =>\n%s\nend' % (ft, self.raise_(ctx, 'e_'), v, body)
         return body
+
+    def isinstance_term(self, c, env):
+        """`isinstance(x, Cls)` for the classes of self.isinstance_vars -> boolean term, else None"""
+        if len(c.args) == 2 and not c.keywords and all(isinstance(a, ast.Name) for a in c.args) \
+                and c.args[1].id in self.isinstance_vars and c.args[0].id in env:
+            tys, var = self.isinstance_vars[c.args[1].id]
+            if ty_of(env[c.args[0].id]) in tys:
+                return '(%s %s)' % (var, c.args[0].id)
+        return None
 
     # ---------------------------------------------------------------- conditions
     def cond(self, c, env, ctx, then, orelse):
@@ -523,6 +696,9 @@ class Tr:
             txt = ast.unparse(c)
             if txt in self.const_false:
                 return orelse
+            it = self.isinstance_term(c, env)
+            if it is not None:
+                return 'if %s then\n%s\nelse\n%s' % (it, indent(then), indent(orelse))
             fail(c, 'isinstance test')
         p, t, ty = self.expr(c, env)
         if ty_of(ty) != 'bool':
@@ -576,11 +752,20 @@ class Tr:
                 if v not in env:
                     fail(self.fn, 'internal: state variable %s lost' % v)
             return 'Normal %s' % ctx.tup()
+        if ctx.kind == 'fold':
+            for v in ctx.state:
+                if v not in env:
+                    fail(self.fn, 'internal: state variable %s lost' % v)
+            return ctx.tup()
+        if self.prop:
+            fail(self.fn, 'property without a return value on some path')
         # falling off the end of a function: returns None
         self.set_ret('unit', self.fn)
         return self.ok('tt')
 
     def ok(self, term):
+        if self.prop:
+            return term
         if self.method:
             return 'Ok (self_external_links, trace, %s)' % term
         return 'Ok %s' % term
@@ -669,7 +854,7 @@ class Tr:
             c, f = s.value, s.value.func
             if isinstance(f.value, ast.Name) and f.value.id == 'self':
                 return self.self_call(s, c, rest, env, ctx)
-            if f.attr == '_set_externally_derivable_components' and len(c.args) == 1 and not c.keywords:
+            if f.attr == '_set_externally_derivable_components' and len(c.args) == 1 and not c.keywords and not self.prop:
                 p1, dv, dty = self.expr(f.value, env)
                 p2, a, aty = self.expr(c.args[0], env)
                 if ty_of(dty) != 'D' or ty_of(aty) != 'dictDL':
@@ -686,12 +871,16 @@ class Tr:
                 p, a, aty = self.expr(c.args[0], env)
                 aty = ty_of(aty)
                 rty = env[recv]
+                if aty in ('EC', 'EL') and ty_of(rty) == 'listE':
+                    aty = 'E'                              # an entry stored back into the list of entries
+                elif aty == 'EL':
+                    a, aty = '(entry_link %s)' % a, 'L'    # an entry known not to be a LinkCollection, used as a link
                 if isinstance(rty, Hole):
                     if (f.attr == 'add') != (rty.kind == 'set') or rty.kind == 'dict':
                         fail(s, '.%s on a %s' % (f.attr, rty.kind))
                     rty.resolve(aty, s)
                 rty = ty_of(rty)
-                if f.attr == 'add' and rty in ('setC', 'setK') and ELEM[rty] == aty:
+                if f.attr == 'add' and rty in ('setC', 'setK', 'setL') and ELEM[rty] == aty:
                     new = 'set_add %s %s %s' % (EQB[aty], recv, a)
                 elif f.attr == 'append' and isinstance(rty, str) and rty.startswith('list') and ELEM[rty] == aty:
                     new = '%s ++ [%s]' % (recv, a)
@@ -707,6 +896,27 @@ class Tr:
         if isinstance(s, ast.If):
             if isinstance(s.test, ast.Call) and ast.unparse(s.test) in self.const_false:
                 return self.block(list(s.orelse) + rest, env, ctx)      # declared-constant isinstance test
+            t = s.test
+            if isinstance(t, ast.Call) and isinstance(t.func, ast.Name) and t.func.id == 'isinstance':
+                it = self.isinstance_term(t, env)
+                if it is not None and ty_of(env[t.args[0].id]) == 'E':
+                    # flow typing: the entry is a LinkCollection in the first branch, a plain link in the second
+                    x = t.args[0].id
+                    envt, envf = dict(env), dict(env)
+                    envt[x], envf[x] = 'EC', 'EL'
+                    then = self.block(list(s.body) + rest, envt, ctx)
+                    orelse = self.block(list(s.orelse) + rest, envf, ctx)
+                    return 'if %s then\n%s\nelse\n%s' % (it, indent(then), indent(orelse))
+            if self.prop and isinstance(t, ast.Compare) and len(t.ops) == 1 and isinstance(t.ops[0], (ast.Is, ast.IsNot)) \
+                    and isinstance(t.comparators[0], ast.Constant) and t.comparators[0].value is None \
+                    and ast.unparse(t.left) == 'self.data_collection' and env['@dc'][1] == 'optlistD':
+                # flow typing: self.data_collection is a list of datasets where it is not None
+                envs = dict(env)
+                envs['@dc'] = ('dc_', 'listD')
+                none_body, some_body = (s.body, s.orelse) if isinstance(t.ops[0], ast.Is) else (s.orelse, s.body)
+                nb = self.block(list(none_body) + rest, env, ctx)
+                sb = self.block(list(some_body) + rest, envs, ctx)
+                return 'match %s with\n| None =>\n%s\n| Some dc_ =>\n%s\nend' % (env['@dc'][0], indent(nb), indent(sb))
             then = self.block(list(s.body) + rest, env, ctx)
             orelse = self.block(list(s.orelse) + rest, env, ctx)
             return self.cond(s.test, env, ctx, then, orelse)
@@ -717,8 +927,10 @@ class Tr:
 
     def check_rebind(self, name, ty, env, node):
         import re
-        if name in ('fuel', 'trace', 'self_external_links', 'r_', 'e_') or re.match(r'^[tvmrcle]\d+_$', name):
+        if name in ('fuel', 'trace', 'self_external_links', 'self_data_collection', 'dc_', 'v_', 'i_', 'r_', 'e_') or re.match(r'^[tvmrcle]\d+_$', name):
             fail(node, 'local name %s clashes with generated names' % name)
+        if name in [v for names, _ in SECTION_VARS for v in names.split()] and name not in ('C', 'L', 'K', 'E', 'D', 'M'):
+            fail(node, 'local name %s clashes with a Section variable' % name)
 
     def self_call(self, s, c, rest, env, ctx):
         """self.<method>(args): methods are state transformers on (self._external_links, trace)"""
@@ -762,7 +974,37 @@ class Tr:
             call, self.raise_(ctx, 'e_'), self.block(rest, env, ctx))
         return self.binds(pre, body, ctx)
 
+    def fold_loop(self, s, rest, env, ctx):
+        """(properties) `for x in it: body` without else / break / continue / return / anything that can raise:
+        fold_left over the iterated list, the accumulator is the tuple of the variables the body assigns or mutates"""
+        if not isinstance(s, ast.For) or s.orelse:
+            fail(s, 'only `for` loops without else are translated inside a property')
+        for b in s.body:
+            for n in ast.walk(b):
+                if isinstance(n, (ast.Break, ast.Continue, ast.Return, ast.Raise, ast.While, ast.Try, ast.With,
+                                  ast.FunctionDef, ast.Lambda, ast.Yield, ast.YieldFrom, ast.Await)):
+                    fail(n, 'statement form inside a loop of a property')
+        st = [v for v in self.assigned(list(s.body)) if v in env]
+        st = [v for v in env if v in st]
+        pre, it, ety = self.iter_of(s.iter, env)
+        if pre or not isinstance(ety, str):
+            fail(s, 'iterable of a loop of a property')
+        if not isinstance(s.target, ast.Name):
+            fail(s, 'loop target')
+        a = s.target.id
+        if a in env:
+            fail(s, 'loop target shadows a live name')
+        self.check_rebind(a, ety, env, s)
+        benv = dict(env)
+        benv[a] = ety
+        body = self.block(list(s.body), benv, Ctx('fold', st))
+        after = self.block(rest, env, ctx)
+        return 'let %s := fold_left (fun %s %s =>\n%s)\n  %s %s in\n%s' % (
+            pat_of(st), pat_of(st), a, indent(body), it, tuple_of(st), after)
+
     def loop(self, s, rest, env, ctx):
+        if self.prop:
+            return self.fold_loop(s, rest, env, ctx)
         inner = list(s.body) + list(s.orelse)
         st = [v for v in self.assigned(inner) if v in env]
         # the order of the state tuple is the order in which the variables were defined
@@ -831,9 +1073,35 @@ def param_types(fn, table):
     return out
 
 
-def translate_function(fn, ptypes, method=False, const_false=(), defaults=None, doc=''):
+def translate_property(fn, coq_name, doc='', kind='property'):
+    """a property of LinkManager: a pure function of self.data_collection (None / Some datasets) and self._external_links;
+    anything that can raise, or a loop that is not a plain fold, aborts"""
+    if [a.arg for a in fn.args.args] != ['self'] or fn.args.vararg or fn.args.kwarg or fn.args.kwonlyargs or fn.args.posonlyargs:
+        fail(fn, 'signature of a property')
+    tr = Tr(fn, 'prop')
+    tr.isinstance_vars = dict(ISINSTANCE_VARS)
+    env = {'self_external_links': 'listE', '@dc': ('self_data_collection', 'optlistD')}
+    body = tr.block(list(fn.body), env, Ctx('fun'))
+    for h in tr.holes:
+        if h.ty is None:
+            fail(h.node, 'cannot infer the element type of this empty container')
+    if tr.ret is None or tr.uses_fuel or 'Err ' in body or 'Raise ' in body:
+        fail(fn, 'property is not a pure function')
+    ret = ty_of(tr.ret)
+    text = 'Definition %s (self_data_collection : option (list D)) (self_external_links : list E) : %s :=\n%s.\n' % (
+        coq_name, COQ_TY[ret], indent(body))
+    info = FnInfo(fn.name, coq_name, [], ret, True, False, 'prop')
+    info.defaults = {}
+    FUNCS['prop.' + fn.name] = info
+    where = '(* LinkManager.%s (%s)  glue/core/link_manager.py:%s-%s%s *)\n' % (
+        fn.name, kind, getattr(fn, 'lineno', '?'), getattr(fn, 'end_lineno', '?'), doc)
+    return where + text
+
+
+def translate_function(fn, ptypes, method=False, const_false=(), defaults=None, doc='', isinstance_vars=None):
     tr = Tr(fn, method)
     tr.const_false = set(const_false)
+    tr.isinstance_vars = dict(isinstance_vars or {})
     params = param_types(fn, ptypes)
     env = {}
     if method:
@@ -960,6 +1228,9 @@ Fixpoint map_result {A B : Type} (f : A -> result B) (l : list A) : result (list
 Definition py_max (l : list Z) : result Z :=
   match l with [] => Err ValueError | x :: r => Ok (fold_left Z.max r x) end.
 
+(* set union `a | b`: the elements of a, then the elements of b that are not already there, in order *)
+Definition set_union {X : Type} (eqb : X -> X -> bool) (a b : list X) : list X := fold_left (set_add eqb) b a.
+
 (* ---------------------------------------------------------------- translated code *)
 Section Links.
 '''
@@ -1073,6 +1344,53 @@ def methods(meths):
     out.append(translate_function(slice_fn, {'data_collection': 'listD'}, method=True,
                                   doc=' -- the loop `for data in data_collection` of update_externally_derivable_components; '
                                       '`self._links | self._inverse_links` is the Section variable links_in_force'))
+    # ---- the properties _links, _inverse_links, links
+    for n, coq_name, doc in (
+            ('_links', 'lm_links', ' -- sets of links are duplicate-free lists (leqb); self.data_collection is None / Some datasets; '
+             "getattr(data, 'links', []) is data_links_attr data; an entry e of _external_links with is_collection e is iterated as "
+             'coll_links e, otherwise it is the link entry_link e'),
+            ('_inverse_links', 'lm_inverse_links', ' -- iteration over the set self._links goes through set_iter_L; '
+             '`f for x in it if f is not None` (f = link.inverse : option L) is translated from the syntax tree as '
+             'flat_map (fun x => match f with Some v_ => [v_] | None => [] end) it (see genexp_list: accepted only when the '
+             'last filter is `<the element expression> is not None`), not through an option_get helper'),
+            ('links', 'lm_links_list', ' -- list(<set>) goes through set_iter_L')):
+        if n not in meths:
+            raise Unsupported('LinkManager.%s not found' % n)
+        strip_decorators(meths[n], ('property',))
+        if [ast.unparse(d) for d in meths[n].decorator_list] != ['property']:
+            fail(meths[n], 'expected a property')
+        out.append(translate_property(meths[n], coq_name, doc))
+    # ---- the expression handed to discover_links in the loop translated above (there: the variable links_in_force)
+    calls = [c for c in ast.walk(loop) if isinstance(c, ast.Call) and isinstance(c.func, ast.Name) and c.func.id == 'discover_links']
+    if len(calls) != 1 or len(calls[0].args) != 2 or calls[0].keywords:
+        fail(loop, 'expected exactly one call discover_links(data, <links>) in the loop')
+    node = calls[0].args[1]
+    if ast.unparse(node) not in SELF_EXPRS:
+        fail(node, 'the links handed to discover_links are not the expression named links_in_force')
+    if not (isinstance(node, ast.BinOp) and isinstance(node.op, ast.BitOr)
+            and all(isinstance(x, ast.Attribute) and isinstance(x.value, ast.Name) and x.value.id == 'self'
+                    and 'prop.' + x.attr in FUNCS for x in (node.left, node.right))):
+        fail(node, 'expected <translated property of self> | <translated property of self>')
+    ret = ast.Return(value=node, lineno=node.lineno, end_lineno=node.end_lineno, col_offset=0)
+    expr_fn = ast.FunctionDef(name='links_in_force', args=ast.arguments(posonlyargs=[], args=[ast.arg(arg='self')], kwonlyargs=[],
+                                                                        kw_defaults=[], defaults=[]),
+                              body=[ret], decorator_list=[], lineno=node.lineno, end_lineno=node.end_lineno, col_offset=0)
+    out.append(translate_property(expr_fn, 'lm_links_in_force',
+                                  ' -- the expression `%s` of update_externally_derivable_components (second argument of '
+                                  'discover_links), the value the variable links_in_force of lm_update_loop stands for' % ast.unparse(node),
+                                  kind='expression'))
+    # ---- add_link(link, update_external=True) for a single entry that is neither a list nor a JoinLink
+    if 'add_link' not in meths:
+        raise Unsupported('LinkManager.add_link not found')
+    fn = meths['add_link']
+    strip_decorators(fn, ())
+    out.append(translate_function(
+        fn, {'link': 'E', 'update_external': 'bool'}, method=True,
+        const_false=('isinstance(link, list)', 'isinstance(link, JoinLink)'), defaults=const_defaults(fn),
+        isinstance_vars=ISINSTANCE_VARS,
+        doc=' -- for one entry that is neither a list nor a JoinLink: `isinstance(link, list)` and `isinstance(link, JoinLink)` '
+            'are false; isinstance(link, LinkCollection) is is_collection; link.inverse is entry_inverse link : result (option E) '
+            '(AttributeError on a LinkCollection = Err, None = no inverse) and is evaluated only where Python evaluates it'))
     return '\n'.join(out)
 
 
